@@ -35,11 +35,12 @@ VARIABLES
     CloudOn       \* BOOLEAN: a cloud provider is configured
 cfgVars == <<Specs, NodeSub, Configs, CloudOn>>
 OpTypes == {"filter", "bind", "unbind", "resync", "apirelease", "poolupsert", "reload", "syncpod", "preempt"}
-\* preempt (the scheduler's preemption extender) runs the same getSubnet as filter, but WITHOUT the pod lock
+\* preempt (the scheduler's preemption extender) runs the same getSubnet as filter (guard "podlock:preempt": it holds the pod
+\* lock while doing so; the code did not before a fix: commit)
 IsFilter(o) == o.type \in {"filter", "preempt"}
 \* ("bindLockFirst" -- Bind taking the pod lock before its lister lookup -- is a switch the code does not have)
 AllGuards == {"unbindUid", "bindStaleLister", "bindUidGuard", "bindPoolSize", "resyncReread", "apiDoubleCheck"}
-             \cup {"podlock:" \o t : t \in OpTypes \ {"preempt"}} \cup {"dplock:" \o t : t \in OpTypes}
+             \cup {"podlock:" \o t : t \in OpTypes} \cup {"dplock:" \o t : t \in OpTypes}
 
 VARIABLES
     mem, store, pools, clock,          \* IPAM object (IPAMCore)
@@ -504,7 +505,7 @@ AddOp(w, o) == [w EXCEPT !.ops = Put(w.ops, w.ctr.op, o), !.ctr.op = w.ctr.op + 
 WithPod(o, p) == [o EXCEPT !.loc.lpod = p, !.loc.key = KeyOf(p), !.loc.policy = PolicyOf(p), !.loc.podname = p.name]
 
 StartFilterW(name) == AddOp(Cur, WithPod(NewOp("filter", "lockpod", name, "", pods[name].uid), pods[name]))
-StartPreemptW(name) == AddOp(Cur, WithPod(NewOp("preempt", "bykey", name, "", pods[name].uid), pods[name]))
+StartPreemptW(name) == AddOp(Cur, WithPod(NewOp("preempt", "lockpod", name, "", pods[name].uid), pods[name]))
 StartBindW(name, node) ==
     AddOp(Cur, [NewOp("bind", IF "bindLockFirst" \in Guards THEN "lockpod" ELSE "podlist", name, node, pods[name].uid)
                 EXCEPT !.loc.podname = name])
